@@ -19,6 +19,7 @@ class Out(Config):
     """What VTaskOut.submit() returns (marked as produced by the task)"""
 
     x: Param[int] = 0
+    extra: Param[Optional[Config]] = None
 
 
 class Bag(Config):
